@@ -588,7 +588,7 @@ func multiInbound(t *testing.T, r *runner.Run, deadline time.Time, workers int) 
 				stage = "reloaded"
 			}
 			classes[fmt.Sprintf("min|%s|n%d|%s|%s|%s|%s|%d", mPools[cfg.Pool].Name, len(cfg.Routes), pos, stage, class, insts[c.Ts].Label, st)] = true
-			if class == "version-of-another-route" || class == "own-version" {
+			if (class == "version-of-another-route" && refValid(mPools[cfg.Pool].W[c.Signer], insts[c.Ts].At.UnixNano())) || (class == "own-version" && st == 202) {
 				samples.keep(fmt.Sprintf("min:%s:%d", stage, st), i, func() any {
 					return map[string]any{"part": "multi-route inbound", "configuration": cfg.String(), "stage": stage, "route": mNames[cfg.Routes[c.Route].Name].Route,
 						"signer": mSignerName(c.Signer), "signer_is": class, "signed_ts": insts[c.Ts].Label, "status": st}
